@@ -14,7 +14,7 @@ from .common import Check
 
 LEVEL = "fault_enumeration"
 
-STDIN = ["close", "none", "half", "all", "slow", "stream", "shead"]
+STDIN = ["close", "none", "half", "all", "slow", "stream", "shead", "allerr", "errall"]
 STDOUT = ["nothing", "half", "full", "fullbad", "bad", "reformat"]
 TERM = ["e0", "e1", "e2", "e3", "e101", "e255", "kill", "segv"]
 RAW = ["// RAWLINE-ONE-7f3a", "use core::ffi::c_void as RawLineTwo9c1d;"]
@@ -25,7 +25,8 @@ SMALL = "struct S { int a; char b; };\nint f(struct S *s);\nextern int g;\n#defi
 def big_header(n):
     parts = []
     for i in range(n):
-        parts.append(f"struct B{i} {{ int a{i}; double d{i}; unsigned f{i}:3; }}; int bf{i}(struct B{i} *p, int q, long r);")
+        parts.append(f"/** record {i}:  two  spaces,   three   spaces and a \"quoted\" word */\nstruct B{i} {{ int a{i}; double d{i}; unsigned f{i}:3; }}; int bf{i}(struct B{i} *p, int q, long r);"
+                     f"\n#define STR{i} \"string literal {i} with  runs   of    spaces { 'x ' * (i % 7) }\"")
     return "\n".join(parts) + "\n"
 
 
@@ -54,7 +55,7 @@ def run(ck, only=None):
     small = os.path.join(wd, "small.h")
     open(small, "w").write(SMALL)
     big = os.path.join(wd, "big.h")
-    nbig = 5000 if ck.tier == "thorough" else 1200
+    nbig = 5000 if ck.tier == "thorough" else 600
     open(big, "w").write(big_header(nbig))
     # sizes on both sides of every buffer the protocol can meet: one pipe buffer (64 KiB), two, and 1 MiB
     mids = []
@@ -93,7 +94,7 @@ def run(ck, only=None):
         jid = f"{tag}|{size}|{'cfg' if conf else 'nocfg'}"
         if only and jid != only:
             return
-        j = {"id": jid, "mode": "fmtcheck", "args": [hdr], "raw_lines": RAW, "formatter": fmt, "timeout": 90}
+        j = {"id": jid, "mode": "fmtcheck", "args": [hdr], "raw_lines": RAW, "formatter": fmt, "timeout": 45}
         if path:
             j["rustfmt_path"] = path
         if conf:
@@ -110,7 +111,7 @@ def run(ck, only=None):
         sizes = [("small", small)]
         # the large input matters where pipes can fill up: every tuple in the thorough tier; in quick the tuples
         # with partial / no reading or slow reading, and one full echo
-        if ck.tier == "thorough" or (sin in ("none", "half", "slow", "close", "stream", "shead") and term in ("e0", "e1", "e3", "kill")) or (sin, sout) == ("all", "full"):
+        if ck.tier == "thorough" or (sin in ("none", "half", "slow", "close", "stream", "shead", "allerr", "errall") and term in ("e0", "e1", "e3", "kill")) or (sin, sout) == ("all", "full"):
             sizes.append(("big", big))
             if ck.tier == "thorough" or term in ("e1", "kill"):
                 sizes += mids
@@ -149,7 +150,7 @@ def run(ck, only=None):
             problems.append(f"header comment / raw lines not exactly once and first (header x{r['header_count']}, raw x{r['raw_counts']}, preamble_ok={r['preamble_ok']})")
         if not r["valid_utf8"]:
             problems.append("output is not valid UTF-8")
-        echo_ok = (tag.startswith(("ff-all-", "ff-slow-")) and tag.split("-")[2] in ("full", "reformat")) or tag.startswith("ff-stream-nothing-")
+        echo_ok = (tag.startswith(("ff-all-", "ff-slow-", "ff-allerr-", "ff-errall-")) and tag.split("-")[2] in ("full", "reformat")) or tag.startswith("ff-stream-nothing-")
         if tag.startswith("real-") or fallback or echo_ok:
             # token identity is required: real formatters, every failure mode, and echoing fakes
             if not r["tokens_equal"]:
@@ -176,7 +177,8 @@ def cli_part(ck, ffdir, sizes, only=None):
     import subprocess
     tuples = [("close", "nothing", "e0"), ("close", "nothing", "e1"), ("none", "nothing", "e1"), ("none", "nothing", "kill"), ("half", "half", "e1"),
               ("half", "nothing", "kill"), ("all", "full", "e0"), ("all", "fullbad", "e0"), ("slow", "full", "e1"), ("all", "nothing", "segv"),
-              ("stream", "nothing", "e1"), ("stream", "nothing", "kill"), ("shead", "nothing", "e1"), ("stream", "nothing", "e0")]
+              ("stream", "nothing", "e1"), ("stream", "nothing", "kill"), ("shead", "nothing", "e1"), ("stream", "nothing", "e0"),
+              ("allerr", "nothing", "e1"), ("errall", "full", "e1"), ("allerr", "full", "e3"), ("errall", "nothing", "kill")]
     if ck.tier != "thorough":
         sizes = [s for s in sizes if s[0] in ("small", "s100k", "s700k", "big")]
 
@@ -186,10 +188,18 @@ def cli_part(ck, ffdir, sizes, only=None):
         if not os.path.lexists(link):
             os.symlink(os.path.join(ffdir, "fake_fmt"), link)
         env = dict(common.ENV, RUSTFMT=link)
+        # own process group: on a timeout the formatter child (which may hold the pipes open) is killed together with bindgen
+        import signal
+        p = subprocess.Popen([common.CLI, hdr, "--formatter", "rustfmt", "--raw-line", RAW[0]], env=env, stdout=subprocess.PIPE, stderr=subprocess.PIPE, start_new_session=True)
         try:
-            p = subprocess.run([common.CLI, hdr, "--formatter", "rustfmt", "--raw-line", RAW[0]], env=env, stdout=subprocess.PIPE, stderr=subprocess.PIPE, timeout=90)
-            return job, p.returncode, p.stdout, p.stderr.decode(errors="replace")[-300:]
+            out, err = p.communicate(timeout=45)
+            return job, p.returncode, out, err.decode(errors="replace")[-300:]
         except subprocess.TimeoutExpired:
+            try:
+                os.killpg(p.pid, signal.SIGKILL)
+            except ProcessLookupError:
+                pass
+            p.communicate()
             return job, "timeout", b"", ""
 
     refs = {}
